@@ -289,7 +289,16 @@ impl C05 {
             // 0.8% of requests (2+ labels): one of two tuples that differ only in where one value ends and the next begins AND whose value
             // lengths read the same modulo 256 (or 65536) - see pools::length_wrap_twins; the second of the pair comes with a later request
             let wrap_req = nlab >= 2 && src.chance(2);
-            let tuple: Vec<String> = if wrap_req {
+            // 1% of requests: a value from a pair whose single-label keys agree in the low 16 bits, all other values empty
+            let lowbits_req = src.chance(3);
+            let tuple: Vec<String> = if lowbits_req {
+                let pairs = crate::pools::fnv_low_bits_pairs();
+                let (a, b) = &pairs[src.below(pairs.len())];
+                let mut t: Vec<String> = vec![String::new(); nlab];
+                t[0] = if src.chance(128) { a.clone() } else { b.clone() };
+                rep.class("value-from-a-pair-with-keys-equal-in-the-low-16-bits");
+                t
+            } else if wrap_req {
                 let w = if src.chance(200) { 1 } else { 2 };
                 let (first, second) = crate::pools::length_wrap_twins(w);
                 let k = src.below(nlab - 1);
